@@ -101,20 +101,20 @@ Proof.
   assert (Hidle : exists t' ou, Ok (t, OutIdle) = Ok (t', ou) /\ tl_inv t' /\
                  enabled t' = enabled t /\ minc t' = minc t /\ maxc t' = maxc t /\ held t' <= held t /\
                  (forall n, ou = OutUsed n -> enabled t = true -> held t' + n = held t) /\
-                 (enabled t = false -> in_list t k = true -> ou = OutUsed (N.min int32_max want)) /\
                  (ou = OutDeact -> exists q, lookup k (act t) = Some q /\ q + unalloc t < minc t)).
   { exists t, OutIdle. splits; auto; try lia; try discriminate. }
   destruct (in_list t k) eqn:Hin; cbn [negb].
-  2:{ left. destruct Hidle as (t' & ou & E & R). exists t', ou. split; [exact E|]. splits; try apply R. discriminate. }
+  2:{ left. destruct Hidle as (t' & ou & E & R). exists t', ou. split; [exact E|].
+      splits; try apply R; try (intros; congruence). }
   destruct (inv_parts _ I) as (P1 & P2 & P3 & P4 & P5 & (K1 & K2 & K3) & P7 & P8).
   pose proof HB_lt as HBw.
   destruct (enabled t) eqn:En; cbn [andb negb].
   - unfold is_act, node_quota. rewrite En. cbn [negb].
-    destruct (lookup k (act t)) as [q|] eqn:L; cbn [negb]; [|left; destruct Hidle as (t' & ou & E & R); exists t', ou; split; [exact E|]; splits; try apply R; discriminate].
+    destruct (lookup k (act t)) as [q|] eqn:L; cbn [negb]; [|left; destruct Hidle as (t' & ou & E & R); exists t', ou; split; [exact E|]; splits; try apply R; try (intros; congruence)].
     pose proof (lookup_le_sumq _ _ _ L) as Hqs.
     rewrite (add32_small q (unalloc t)) by lia. cbn [bind].
     destruct (N.leb_spec (minc t) (q + unalloc t)) as [Hge|Hlt].
-    + destruct (N.eqb_spec (q + unalloc t) 0); [lia|].
+    + destruct (N.eqb_spec (q + unalloc t) 0) as [Hz0|Hnz0]; [lia|].
       set (n := N.min (q + unalloc t) want).
       assert (Hn : n < w32) by (unfold n; lia).
       destruct (node_used_spec t s k n I Hn) as [(t' & E & I' & H1 & H2 & He & Hmn & Hmx & _ & _ & Hex)|E];
@@ -154,16 +154,14 @@ Proof.
   intros I. unfold tl_disable. destruct (enabled t) eqn:En; cbn [negb fst].
   - destruct (inv_parts _ I) as (P1 & P2 & P3 & P4 & P5 & P6 & P7 & P8).
     split; [apply mk_inv; simp_tl; rewrite ?app_length, ?sumq_app, ?zeroq_sumq; cbn [length sumq fold_right]; auto; try lia|].
-    + unfold zeroq. rewrite !map_length. rewrite Nat.add_0_r. exact P2.
-    + unfold ids. rewrite map_app. cbn [map]. rewrite app_nil_r. rewrite <- map_app.
-      change (NoDup (ids (zeroq (act t) ++ zeroq (inact t)))). unfold ids. rewrite map_app.
-      fold (ids (zeroq (act t))) (ids (zeroq (inact t))). rewrite !zeroq_ids. exact P3.
-    + apply zero_capped. apply Forall_app; split; apply zeroq_zero.
-    + constructor.
-    + unfold zeroq. rewrite !map_length. rewrite Nat.add_0_r. exact P7.
-    + rewrite HB_val. lia.
-    + intros _. splits; auto. apply Forall_app; split; apply zeroq_zero.
-    + unfold held. simp_tl. splits; auto.
+    all: try (unfold zeroq; rewrite !map_length, Nat.add_0_r; assumption).
+    all: try (apply zero_capped; apply Forall_app; split; apply zeroq_zero).
+    all: try (constructor; fail).
+    all: try (rewrite HB_val; lia).
+    all: try (intros _; splits; auto; apply Forall_app; split; apply zeroq_zero).
+    all: try (unfold held; simp_tl; splits; auto; fail).
+    cbn [ids map]. rewrite app_nil_r. unfold ids. rewrite map_app.
+    fold (ids (zeroq (act t))) (ids (zeroq (inact t))). rewrite !zeroq_ids. exact P3.
   - destruct (i_dis _ I En) as (D1 & D2 & D3 & D4).
     destruct (inv_parts _ I) as (P1 & P2 & P3 & P4 & P5 & P6 & P7 & P8).
     splits; auto. unfold held. rewrite P1, D1, D2, D3, (zero_sumq _ D4). reflexivity.
